@@ -350,10 +350,16 @@ class Report:
     def finish(self, level, obligations=None, discharged=None, names=None, checker_cmd=None, trusted=None, extra=None):
         os.makedirs(os.path.join(VERIF, "evidence"), exist_ok=True)
         os.makedirs(os.path.join(VERIF, "replays"), exist_ok=True)
+        for old in os.listdir(os.path.join(VERIF, "replays")):
+            if old.startswith(self.prop + "-") and old.endswith(".json"):
+                os.remove(os.path.join(VERIF, "replays", old))
         for fid, (f, n) in sorted(self.known.items()):
             print(f"KNOWN-FINDING: property={self.prop} {f['what']} [{fid}; {n} case(s) this run]")
         seen_sig = set()
         nviol = 0
+        # a broken proof / correspondence is reported on its own only when the search found no concrete failing input
+        if any(not rp.get("no_failing_input") for _, rp in self.violations):
+            self.violations = [(sg, rp) for sg, rp in self.violations if not rp.get("no_failing_input")]
         for sig, replay in self.violations:
             k = json.dumps(sig, sort_keys=True)
             if k in seen_sig:
